@@ -686,7 +686,12 @@ class QvmCpu:
         if len(value) == 0:
             self.trap(TrapCode.INVALID_OPERAND_VALUE,
                       desc='ASC does not accept empty strings')
-        self.push(CellType.INTEGER, ord(value[0]))
+        try:
+            code = value[0].encode('cp437')[0]
+        except UnicodeEncodeError:
+            self.trap(TrapCode.INVALID_OPERAND_VALUE,
+                      desc='ASC: character is not in code page 437')
+        self.push(CellType.INTEGER, code)
 
     def _exec_call(self, target):
         self.push(CellType.LONG, self.pc)
